@@ -105,9 +105,11 @@ STRENGTHENED = {
              "unit spacing / identity direction)",
     "C20-9": "same change as C05-9; first reported only by C15; `check_op` now evaluates every operation twice with unchanged "
              "inputs (`C20:irreproducible:*`) and a constant-padding `grid_sample` operation was added",
+    "C08-10": "not reported by C08 (every single product is still numerically right; only the caller's first operand is overwritten) "
+              "but by C15, the property that owns argument mutation (`C15:core.homogeneous_matmul:mutates-argument`); C08 left as is",
     "C13-10": "missed; the bracket and commuting-pair oracles now also pass an explicit `spacing` (scalar or per axis), which "
               "lie_bracket has to forward to both Jacobians",
-    # round 7 (session 5; twelve properties — C04 C05 C06 C07 C09 C10 C13 C15 C17 C18 C19 C20: second-order places,
+    # round 7 (session 5; sixteen properties — all but C02 C03 C11 C14: second-order places,
     # rarely used entry points or keywords, interaction of two options / objects, three-step histories)
     "C15-10": "missed; the C15 argument table now calls wlcc_loss with every dtype pairing of source_mask / target_mask (a mask "
               "already of the compute dtype is not copied by `.float()`, so an in-place product writes into the caller's tensor)",
@@ -152,7 +154,7 @@ def main():
            "SVF `grid_()` change twice), -8 round 5 (one per property: the defect lives in exactly one branch that depends on the SHAPE "
            "of the problem — number of dimensions, batch size / broadcasting, channels, size parity or boundary sizes, rank or type "
            "of an optional argument), -9 round 6 (one per property: special values and boundaries — exact zeros / ones, indices at 0 or n−1, "
-           "falsy-but-valid arguments, same-domain or mirrored grids — and repeated application), -10 round 7 (session 5, twelve properties — the eight whose tie to the code is correspondence only, C05 C06 C09 C10 C15 C18 C19 C20, then C04 C07 C13 C17: second-order places such as a rarely used entry point or keyword form, the interaction of two options or two objects, a three-step history). The first round-3 change for C12 (dropping the up-front float cast of "
+           "falsy-but-valid arguments, same-domain or mirrored grids — and repeated application), -10 round 7 (session 5, sixteen properties — the eight whose tie to the code is correspondence only, C05 C06 C09 C10 C15 C18 C19 C20, then C04 C07 C13 C17 and C01 C08 C12 C16: second-order places such as a rarely used entry point or keyword form, the interaction of two options or two objects, a three-step history). The first round-3 change for C12 (dropping the up-front float cast of "
            "integer flows in spatial_derivatives) was only a defect because finite_differences truncated fractional spacings for "
            "integer data on the unchanged tree; that is a genuine defect (repaired, 57bfa1a), after which the change is "
            "behaviour-preserving, so it was replaced by a new one. "
